@@ -433,7 +433,7 @@ Definition var_index (e : env) (vr : var) (i : idx) : outcome (str * bool) :=
           match i with
           | IAt => OOk (join SP (assoc_vals m), true)
           | IStar => OOk (ifs_join e (assoc_vals m), true)
-          | INum z => if Z.ltb z 0 then OPanic        (* type assertion idx to syntax.Word fails on a UnaryArithm *)
+          | INum z => if Z.ltb z 0 then OOk ([], false)   (* a subscript parsed as arithmetic (-1) is an unset key *)
                       else let o := assoc_get m (itoa z) in
                            OOk (opt_str o, match o with Some _ => true | None => false end)
           | IKey k => let o := assoc_get m k in
